@@ -188,6 +188,76 @@ def cases_for(p, decl) -> list:
     return out
 
 
+def consulted_names() -> list:
+    """Every literal input name the readers look up in `InputParameters` themselves (`'X' in model.InputParameters`,
+    `model.InputParameters['X']`, through a local name bound to a literal as well): the candidates for names that reach a
+    parameter without being its declared name."""
+    import ast
+
+    found = set()
+    for f in sorted((REPO / 'src' / 'geophires_x').glob('*.py')) + sorted((REPO / 'src' / 'hip_ra_x').glob('*.py')):
+        try:
+            tree = ast.parse(f.read_text())
+        except (OSError, SyntaxError):
+            continue
+        lits = {}
+        for n in ast.walk(tree):
+            if isinstance(n, ast.Assign) and isinstance(n.value, ast.Constant) and isinstance(n.value.value, str):
+                for t in n.targets:
+                    if isinstance(t, ast.Name):
+                        lits[t.id] = n.value.value
+
+        def text(e):
+            if isinstance(e, ast.Constant) and isinstance(e.value, str):
+                return e.value
+            if isinstance(e, ast.Name):
+                return lits.get(e.id)
+            return None
+
+        def is_inputs(e):
+            return isinstance(e, ast.Attribute) and e.attr == 'InputParameters'
+
+        for n in ast.walk(tree):
+            if isinstance(n, ast.Compare) and len(n.ops) == 1 and isinstance(n.ops[0], (ast.In, ast.NotIn)) and is_inputs(n.comparators[0]):
+                t = text(n.left)
+                if t:
+                    found.add(t)
+            if isinstance(n, ast.Subscript) and is_inputs(n.value):
+                t = text(n.slice)
+                if t:
+                    found.add(t)
+    return sorted(found)
+
+
+def _values(m) -> dict:
+    return {(mod, p.Name.strip()): num(p.value) for mod, p in params_of(m) if declared(p) is not None}
+
+
+def other_names(fam: str, base: str, m0, declared_names: set) -> dict:
+    """{undeclared name the readers consult: (module, parameter it sets)} - found by reading `base + name, v` through the real
+    reader for a few v and looking at which declared parameter took the value."""
+    out = {}
+    if fam == 'hip_ra_x':
+        return out
+    try:
+        before = _values(build(base))
+    except BaseException:  # noqa: BLE001
+        return out
+    for alias in consulted_names():
+        if alias in declared_names:
+            continue
+        for v in ('1000', '100', '10', '1', '0.5'):
+            try:
+                after = _values(build(base.rstrip('\n') + f'\n{alias}, {v}\n'))
+            except BaseException:  # noqa: BLE001
+                continue
+            hit = [k for k in after if after[k] != before.get(k) and after[k] is not None and abs(after[k] - float(v)) <= 1e-9 * abs(float(v))]
+            if len(hit) == 1:
+                out[alias] = hit[0]
+                break
+    return out
+
+
 def enumerate_family(item):
     """Worker: list every (parameter, case) of one family."""
     fam, base = item
@@ -203,18 +273,30 @@ def enumerate_family(item):
             continue
         for label, text, val in cases_for(p, decl):
             jobs.append({'family': fam, 'module': mod, 'name': name, 'label': label, 'text': text, 'v': val, 'p': decl, 'base': base})
+    # the same cases under every other name the readers accept for a parameter (deprecated spellings): the declaration is the parameter's
+    byname = {(mod, p.Name.strip()): p for mod, p in params_of(m)}
+    for alias, (mod, name) in sorted(other_names(fam, base, m, seen).items()):
+        p = byname.get((mod, name))
+        decl = declared(p) if p is not None else None
+        if decl is None:
+            continue
+        for label, text, val in cases_for(p, decl):
+            jobs.append({'family': fam, 'module': mod, 'name': name, 'written': alias, 'label': f'as[{alias}]:{label}', 'text': text, 'v': val,
+                         'p': decl, 'base': base})
     return jobs
 
 
 def run_case(job):
     """Worker: the real read of base + one line."""
     fam, name = job['family'], job['name']
-    text = job['base'].rstrip('\n') + f'\n{name}, {job["text"]}\n'
+    written = job.get('written', name)
+    text = job['base'].rstrip('\n') + f'\n{written}, {job["text"]}\n'
     res = {k: job[k] for k in ('family', 'module', 'name', 'label', 'text', 'v', 'p')}
+    res['written'] = written
     try:
         m = build_hip(text) if fam == 'hip_ra_x' else build(text)
     except ValueError as ex:
-        res.update(outcome='rejected', named=(name in str(ex)), after='undef', error=str(ex)[:200])
+        res.update(outcome='rejected', named=(name in str(ex) or written in str(ex)), after='undef', error=str(ex)[:200])
         return res
     except BaseException as ex:  # noqa: BLE001
         res.update(outcome='other', named=False, after='undef', error=f'{type(ex).__name__}: {str(ex)[:160]}')
@@ -237,7 +319,7 @@ def end_to_end(job):
     d = tempfile.mkdtemp(prefix='vc07e_', dir='/dev/shm' if os.path.isdir('/dev/shm') else None)
     cwd0, argv0 = os.getcwd(), list(sys.argv)
     inp = Path(d, 'in.txt')
-    inp.write_text(job['base'].rstrip('\n') + f'\n{job["name"]}, {job["text"]}\n')
+    inp.write_text(job['base'].rstrip('\n') + f'\n{job.get("written", job["name"])}, {job["text"]}\n')
     logging.disable(logging.CRITICAL)
     sink = io.StringIO()
     out = {'raised': None, 'named': False, 'report': False}
@@ -249,7 +331,7 @@ def end_to_end(job):
                 out['report'] = Path(r.output_file_path).exists() and Path(r.output_file_path).stat().st_size > 0
             except RuntimeError as ex:
                 out['raised'] = 'RuntimeError'
-                out['named'] = job['name'] in str(ex) or job['name'] in sink.getvalue()
+                out['named'] = any(n in str(ex) or n in sink.getvalue() for n in (job['name'], job.get('written', job['name'])))
                 op = getattr(params, '_output_file_path', None) or getattr(params, 'get_output_file_path', lambda: None)()
                 out['report'] = bool(op) and Path(op).exists() and Path(op).stat().st_size > 0
             except BaseException as ex:  # noqa: BLE001
@@ -317,11 +399,12 @@ def run(tier: str, only: dict | None = None) -> int:
                 drift.setdefault(c, []).append(ident)
                 continue
             key = {'clause': c, 'family': o['family'], 'parameter': o['name'], 'case': o['label']}
-            res.violation(key, f"{c}: {o['family']} '{o['name']}, {o['text']}' -> {o['outcome']} (after={o['after']}, error={o['error']})",
-                          {'family': o['family'], 'line': f"{o['name']}, {o['text']}", 'declared': o['p'], 'outcome': o['outcome'],
+            res.violation(key, f"{c}: {o['family']} '{o['written']}, {o['text']}' -> {o['outcome']} (after={o['after']}, error={o['error']})",
+                          {'family': o['family'], 'line': f"{o['written']}, {o['text']}", 'parameter': o['name'], 'declared': o['p'], 'outcome': o['outcome'],
                            'after': o['after'], 'error': o['error']})
     res.cov['clauses_and_outcomes'] = counts
     res.cov['model_drift'] = {k: v[:8] + ([f'... {len(v) - 8} more'] if len(v) > 8 else []) for k, v in drift.items()}
+    res.cov['other_names_probed'] = sorted({f"{o['written']} -> {o['name']}" for o in outcomes if o['written'] != o['name']})
     res.cov['other_reason_failures'] = [f"{o['family']}:{o['name']}:{o['label']}: {o['error']}" for o in outcomes if o['outcome'] == 'other'][:30]
     # end-to-end subset through the client
     rng = random.Random(seed() + 7)
